@@ -24,6 +24,7 @@ var extraClauses = map[string][]string{
 		"host-clean by string shape: the value ClearVirtualHost returns is its parameter cut at NUL and at /// (Split(..)[0], SplitN(..)[0], Cut and helpers around them are one operation)"},
 	"C22": {"error-no-command/bearing-return-behind-err-nil: every command-bearing return reachable after executeCommand lies behind its err == nil edge (a failed proxy command must not fall through to the forwarding return)"},
 	"C20": {"mac-covers-payload also in streaming form: with io.MultiWriter(buf, mac) no write may go to the buffer (or the MAC) alone and nothing is written through it after Sum"},
+	"C39": {"framing/header-compared-whole: the prefix Decrypt compares before skipping len(HEADER) bytes derives from HEADER itself (identifier + version byte), not a shorter identifier"},
 	"C16": {"lock-released for connectedPlayer / connectionRequest", "server-equality: RegisteredServer values are never compared with == (always RegisteredServerEqual)"},
 	"C18": {"lock-released for serverConnection", "recorded-on-own-connection: recordBackendKeepAlive is handed the handler's own serverConn field"},
 	"C21": {"last-seen-adopted: in the session chat/command continuations the queue's fixed last-seen update is stored into the packet/builder before anything is returned on the paths where it is non-nil", "lock-released for chatQueue"},
@@ -36,11 +37,11 @@ var extraClauses = map[string][]string{
 	"C30": {"all-tried: a wholesale clear of the candidate list in the backend iterator is only reachable when a removal looked for the selected backend by literal equality (it is an element of the list, so that search cannot miss); a removal that only compares parsed addresses lets an unparsable selection discard the untried backends", "key-agreement: every access of StrategyManager.connectionCounters / activeConnections / latencyCache uses the same key spelling", "lock-released for StrategyManager"},
 	"C31": {"payload-owned: the re-encoded handshake payload does not alias a pooled or reused buffer"},
 	"C32": {"lock-released for pingStatusCache"},
-	"C35": {"lock-released for package gate"},
-	"C37": {"all-items-validated: validation loops are left only when their range is exhausted (no break/return inside)"},
+	"C35": {"publish-owned (deep clone, type-directed): cloneLiveLiteRoutes either round-trips the routes through an encoder or re-creates every reference-typed field (slice, map, pointer, interface…) of the element type with a fresh value — a field copied with the struct stays shared with the caller's candidate", "lock-released for package gate"},
+	"C37": {"parameter-grammar: Lite validation's two placeholder recognisers (containsParameters, extractParameterIndices) accept the same language ($ followed by digits): regex language equivalence modulo capture groups, or delegation", "all-items-validated: validation loops are left only when their range is exhausted (no break/return inside)"},
 	"C38": {"return-only-if-unchanged-or-recorded: reconcile returns only when the fresh fingerprint equals 'observed' or after storing it"},
 	"C41": {"consume-matches-wiretype: every ConsumeVarint/ConsumeBytes of a principal field lies behind 'tag wire type == that type' (path-consistent guard cut)"},
-	"C42": {"register-atomic: ThenAccept reads 'completed' and appends the callback in one exclusive critical section", "lock-released for package future"},
+	"C42": {"complete-atomic: testing !completed and storing value / completed=true are one critical section (no Lock/Unlock of the mutex in between, also not inside a helper)", "register-atomic: ThenAccept reads 'completed' and appends the callback in one exclusive critical section", "lock-released for package future"},
 	"C44": {"teardown-order: inside closeOnce the context is cancelled before the socket is closed and before Disconnected() runs"},
 }
 
